@@ -95,7 +95,7 @@ var classes = []payloadClass{
 		return pick(r, "<"+m+">", "<"+m+" x=1>", "</"+m+">", "<b "+m+"=1>", "<b "+m+">", "<"+m+"/>", "<a href=//evil.test/"+m+">x</a>", "<form action=\"//evil.test/"+m+"\"><button>", "<iframe src=//evil.test/"+m+">", "<base href=//evil.test/"+m+"/>")
 	}},
 	{"backslash-json", func(r *rand.Rand, m string) string {
-		return pick(r, "\\\"}"+m, "\"}, {\""+m+"\": \"", "\\", m+"\\", "\\u003cscript\\u003e"+m, "\"\\", "\\\\\"", "\"}\n{\""+m+"\":1}", "\x1f\x1e"+m+"\x7f", "\"]}"+m, "\\x3cscript\\x3e"+m, "\b\f\v"+m)
+		return pick(r, "\\\"}"+m, "\"}, {\""+m+"\": \"", m+"\\", "\\"+m+"\\", "\\u003cscript\\u003e"+m, m+"\"\\", m+"\\\\\"", "\"}\n{\""+m+"\":1}", "\x1f\x1e"+m+"\x7f", "\"]}"+m, "\\x3cscript\\x3e"+m, "\b\f\v"+m)
 	}},
 	{"long", func(r *rand.Rand, m string) string {
 		inner := pick(r, "<script>"+m+"</script>", "\"><img src=x onerror="+m+">", "'><"+m+">", "</title><b "+m+">")
@@ -238,6 +238,18 @@ func urlHostSafe(s string) string {
 	for i := 0; i < len(s); i++ {
 		c := s[i]
 		if c >= 'a' && c <= 'z' || c >= 'A' && c <= 'Z' || c >= '0' && c <= '9' || strings.IndexByte("!$&'()*+,;=-._~<>\"", c) >= 0 {
+			b = append(b, c)
+		}
+	}
+	return string(b)
+}
+
+// userinfoSafe keeps what net/url accepts in the userinfo part of a URL.
+func userinfoSafe(s string) string {
+	b := make([]byte, 0, len(s))
+	for i := 0; i < len(s); i++ {
+		c := s[i]
+		if c >= 'a' && c <= 'z' || c >= 'A' && c <= 'Z' || c >= '0' && c <= '9' || strings.IndexByte("-._:~!$&'()*+,;=%", c) >= 0 {
 			b = append(b, c)
 		}
 	}
